@@ -462,3 +462,47 @@ func TestC13_R_DeeperThanHash(t *testing.T) {
 		}
 	}
 }
+
+// FuzzC13_HostileDAG drives the hostile-DAG property with Go's coverage-guided fuzzer (thorough tier): the byte input
+// is the random tape rapid draws the generator choices from.
+func FuzzC13_HostileDAG(f *testing.F) {
+	f.Fuzz(rapid.MakeFuzz(func(t *rapid.T) {
+		var m *mnode
+		var extra []string
+		switch rapid.IntRange(0, 2).Draw(t, "gen") {
+		case 0:
+			m = genHostileScratch(t, 3)
+			if m.IsRaw {
+				return
+			}
+		case 1:
+			var key string
+			m, key = genDeepChain(t)
+			extra = []string{key}
+		default:
+			fc := genFileDAG(t, 0, 40)
+			var err error
+			m, err = parseM(fc.St, fc.Root)
+			if err != nil {
+				return
+			}
+		}
+		all := m.all()
+		for i := rapid.IntRange(0, 3).Draw(t, "nmut"); i > 0; i-- {
+			mutate(t, all[rapid.IntRange(0, len(all)-1).Draw(t, "target")])
+		}
+		if nodes, _, _ := m.treeSize(); nodes > 400 {
+			return
+		}
+		xs, p, stack, root, err := c13Run(m, extra...)
+		if err != nil {
+			return
+		}
+		if p != nil {
+			t.Fatalf("C13: PANIC on hostile DAG %s: %v\n%s", root, p, stack)
+		}
+		if xs.violation != "" {
+			t.Fatalf("C13: unbounded work on hostile DAG %s: %s", root, xs.violation)
+		}
+	}))
+}
